@@ -24,6 +24,12 @@ pub fn dyadic(n: i64, e: i64) -> f64 {
 
 /// f64 -> (n, e) with |n| < 2^24 and e <= 10 if exactly representable in the model
 pub fn to_dyadic(x: f64) -> Option<(i64, i64)> {
+    to_dyadic_max(x, 16_777_216.0)
+}
+
+/// the same with a bound on the mantissa (2^24 for Singles, 2^30 for Doubles: the specification's
+/// exact domain, see BasicValues.MkF)
+pub fn to_dyadic_max(x: f64, max: f64) -> Option<(i64, i64)> {
     if !x.is_finite() {
         return None;
     }
@@ -36,7 +42,7 @@ pub fn to_dyadic(x: f64) -> Option<(i64, i64)> {
     for e in 0..=10 {
         let scaled = x * (2f64).powi(e);
         if scaled.fract() == 0.0 {
-            if scaled.abs() < 16_777_216.0 {
+            if scaled.abs() < max {
                 return Some((scaled as i64, e as i64));
             }
             return None;
@@ -53,7 +59,7 @@ pub fn val_to_model(v: &Val) -> Value {
             Some((n, e)) => json!({"t":"S","n":n,"e":e,"s":[],"x":true}),
             None => json!({"t":"S","n":0,"e":0,"s":[],"x":false}),
         },
-        Val::Double(f) => match to_dyadic(*f) {
+        Val::Double(f) => match to_dyadic_max(*f, 1_073_741_824.0) {
             Some((n, e)) => json!({"t":"D","n":n,"e":e,"s":[],"x":true}),
             None => json!({"t":"D","n":0,"e":0,"s":[],"x":false}),
         },
